@@ -34,14 +34,14 @@ pub struct Ins {
     scope: Sc,
     beh: Beh,
     name: &'static str,
-    value: &'static str,
+    value: &'static [u8],
 }
 
 #[derive(Clone)]
 pub struct M {
     depth: usize,
     stacks: bool,
-    values: &'static [&'static str],
+    values: &'static [&'static [u8]],
 }
 
 fn scopes() -> Vec<Sc> {
@@ -188,7 +188,7 @@ impl Model for M {
             for beh in BEHS {
                 for name in ["X", "Y"] {
                     for value in self.values {
-                        let value: &'static str = value;
+                        let value: &'static [u8] = value;
                         out.push(Ins { scope: scope.clone(), beh, name, value });
                     }
                 }
@@ -197,8 +197,8 @@ impl Model for M {
     }
     fn next_state(&self, s: &St, a: Ins) -> Option<St> {
         let mut n = s.clone();
-        n.env.insert(a.scope.real(), a.beh.real(), a.name, a.value);
-        n.abs.insert((a.scope, a.beh, a.name.as_bytes().to_vec()), a.value.as_bytes().to_vec());
+        n.env.insert(a.scope.real(), a.beh.real(), a.name, <std::ffi::OsStr as std::os::unix::ffi::OsStrExt>::from_bytes(a.value));
+        n.abs.insert((a.scope, a.beh, a.name.as_bytes().to_vec()), a.value.to_vec());
         n.inserts += 1;
         Some(n)
     }
@@ -216,8 +216,9 @@ pub fn run(args: &Args) {
         replay(path, &mut rep);
         rep.finish();
     }
-    const FULL: &[&str] = &["", "x", "y"];
-    const REDUCED: &[&str] = &["", "x"];
+    // the third value is not valid UTF-8: values are byte strings and must be carried unchanged
+    const FULL: &[&[u8]] = &[b"", b"x", b"\xffy"];
+    const REDUCED: &[&[u8]] = &[b"", b"x"];
     let depth = 3;
     // phase 1: BFS over insert sequences from the empty environment
     let m = M { depth, stacks: false, values: FULL };
@@ -247,7 +248,7 @@ pub fn run(args: &Args) {
     // non-trivial = states with at least one entry (every one of them has >= 1 query whose result differs from the start env or tests non-interference)
     rep.cov("distinct_nontrivial", r.states + r2.states + r3s - 2);
     rep.cov("rule", "states = distinct abstract maps (scope,behaviour,name)->value reached by real LayerEnv::insert sequences (BFS from empty to the depth bound; plus all 3x(2^5x2^5-1) behaviour stacks on one name and one further insert); each state is evaluated for 5 query scopes x 4 starting environments against the reference rules; non-trivial = non-empty environment");
-    rep.cov("bound", json!({"insert_depth": depth, "alphabet": "4 scopes x 5 behaviours x names {X,Y} x values {'',x,y} = 120 inserts", "stacks": "3 x 1023 init states, depth 1", "query": "5 scopes (incl. unknown process q) x 4 start envs (unset, empty, set, set+others)"}));
+    rep.cov("bound", json!({"insert_depth": depth, "alphabet": "4 scopes x 5 behaviours x names {X,Y} x values {'',x,<0xff>y} = 120 inserts", "stacks": "3 x 1023 init states, depth 1", "query": "5 scopes (incl. unknown process q) x 4 start envs (unset, empty, set, set+others)"}));
     let capped = r.cap_hit.clone().or(r2.cap_hit.clone()).or(r3.as_ref().and_then(|x| x.cap_hit.clone()));
     rep.cov("exhaustive", capped.is_none());
     if let Some(c) = &capped {
